@@ -658,6 +658,12 @@ def plan_c15(ctx):
 def plan_c14(ctx):
     q = ctx.quick()
     seg_models(ctx, dynamic=False, heap=not q, layout=True)
+    # the arithmetic, for every length up to 2^62 and every offset: symbolically (Apalache / Z3)
+    w1 = apalache_check("SegLayoutSym", "Init", "Next", "Inv", ctx.wd)
+    w2 = apalache_check("SegLayoutSym", "InitSmall", "NextSmall", "InvSmall", ctx.wd)
+    ctx.notes.append({"symbolic_check": "apalache-mc check --length=0 SegLayoutSym.tla: Inv (all len in 17..2^62, all offsets o1 <= o2 < len, all shifts j) and "
+                      "InvSmall (all len in 2..16) have outcome NoError", "wall_s": round(w1 + w2, 1)})
+    log(f"[apalache] SegLayoutSym: Inv and InvSmall NoError ({w1 + w2:.1f}s)")
     futs = layout_jobs(ctx, not q) + seg_random_jobs(ctx, 1, 500 if q else 3000)
     ctx.collect(futs)
     return ctx.finish("model: layout arithmetic over all lengths 1..MaxLen and 2^k-1, 2^k, 2^k+1 up to 2^30, with the scaling lemma; "
